@@ -136,7 +136,7 @@ fn probe_path(profile: &str) -> PathBuf {
 /// every fourth case runs the debug build of the probe (overflow checks, debug assertions of the
 /// allocator and of tiny-std on)
 fn probe_for(case: u64) -> (PathBuf, bool) {
-    if case % 4 == 3 {
+    if simk::dec::mix(&[case, 0xc05]) % 4 == 3 {
         let p = probe_path("debug");
         if p.exists() {
             return (p, true);
